@@ -478,20 +478,20 @@ def selftest(repo: Repo):
         v("tablerow-cols-typeerror", "liquid/builtin/tags/tablerow_tag.py", "            return to_int(arg)\n        except (ValueError, TypeError):", "            return to_int(arg)\n        except ValueError:", "C02-ESCAPE"),
         v("range-bound-typeerror", "liquid/builtin/expressions/primitive.py", "            stop = to_int(stop)\n        except (ValueError, TypeError):", "            stop = to_int(stop)\n        except ValueError:", "C02-ESCAPE"),
         v("math-filter-arithmetic", FL, "        except (ArithmeticError, ValueError) as err:\n", "        except ZeroDivisionError as err:\n", "C02-ESCAPE"),
-        v("decimal-arg-valueerror-only", FL, "            return Decimal(val)\n        except (ValueError, ArithmeticError) as err:", "            return Decimal(val)\n        except ValueError as err:", "C02-ESCAPE"),
         v("to-int-infinity", "liquid/limits.py", "    try:\n        return int(val)\n    except OverflowError as err:\n        # float infinity: not an integer, just like NaN (which is a ValueError)\n        raise ValueError(str(err)) from err\n", "    return int(val)\n", "C02-ESCAPE"),
-        v("base64-decode-binascii-only", "liquid/builtin/filters/string.py", "        return base64.b64decode(val).decode()\n    except ValueError as err:", "        return base64.b64decode(val).decode()\n    except binascii.Error as err:", "C02-ESCAPE"),
         v("date-digits-unguarded", "liquid/builtin/filters/misc.py", "            try:\n                dat = datetime.datetime.fromtimestamp(int(dat))\n            except (OverflowError, OSError, ValueError):\n                # Out of range for a timestamp, or digits `int` does not accept.\n                return str(dat)\n", "            dat = datetime.datetime.fromtimestamp(int(dat))\n", "C02-ESCAPE"),
         v("compact-missing-key", "liquid/builtin/filters/array.py", "            except (KeyError, IndexError):\n                return False\n", "            except IndexError:\n                return False\n", "C02-ESCAPE"),
         v("contains-unhashable", "liquid/builtin/expressions/logical.py", "        try:\n            return right in left\n        except TypeError:\n            # An unhashable value is never a key of a mapping or a member of a set.\n            return False\n", "        return right in left\n", "C02-ESCAPE"),
         v("translate-count-infinity", "liquid/extra/filters/translate.py", "    except (ValueError, OverflowError):\n        return None\n", "    except ValueError:\n        return None\n", "C02-ESCAPE"),
-        v("new-int-in-string-filter", "liquid/builtin/filters/string.py", "def strip(val: str) -> str:\n    \"\"\"Return a copy of _val_ with leading and trailing whitespace removed.\"\"\"\n", "def strip(val: str) -> str:\n    \"\"\"Return a copy of _val_ with leading and trailing whitespace removed.\"\"\"\n    if int(val) == 0:\n        return \"\"\n", "C02-ESCAPE"),
         v("new-modulo-in-tag", "liquid/builtin/tags/cycle_tag.py", "        index = context.cycle(key, len(args))\n", "        index = context.cycle(key, len(args))\n        index = index % len(args)\n", "C02-ESCAPE", count=2),
         v("offset-validation-dropped-in-both-twins", "liquid/builtin/expressions/loop.py", "            if offset != \"continue\":\n                offset = self._to_int(offset, token=self.offset.token)\n", "", "C02-ESCAPE", count=2),
-        v("filter-evaluate-no-typeerror", "liquid/builtin/expressions/filtered.py", "            return func(left, *positional_args, **keyword_args)\n        except TypeError as err:\n            raise LiquidTypeError(f\"{self.name}: {err}\", token=self.token) from err\n        except (LiquidTypeError, FilterArgumentError) as err:", "            return func(left, *positional_args, **keyword_args)\n        except (LiquidTypeError, FilterArgumentError) as err:", "C02-FUNNEL", count=2),
+        v("filter-evaluate-no-typeerror", "liquid/builtin/expressions/filtered.py", "        except TypeError as err:\n            raise LiquidTypeError(f\"{self.name}: {err}\", token=self.token) from err\n", "", "C02-FUNNEL", count=2),
+        v("filter-evaluate-no-valueerror", "liquid/builtin/expressions/filtered.py", "        except ValueError as err:\n            # For example, an integer beyond the int/str conversion limit.\n            raise FilterValueError(f\"{self.name}: {err}\", token=self.token) from err\n", "", "C02-ESCAPE", count=2),
+        v("sum-arithmetic-unguarded", "liquid/builtin/filters/array.py", "    except ArithmeticError as err:\n        # Infinity minus infinity, or a decimal exponent out of range.\n        raise FilterArgumentError(f\"sum: {err}\", token=None) from err\n", "    except KeyError as err:\n        raise FilterArgumentError(f\"sum: {err}\", token=None) from err\n", "C02-ESCAPE"),
+        v("to-str-bare", "liquid/limits.py", "    try:\n        return str(val)\n    except ValueError as err:\n        raise LiquidValueError(str(err), token=None) from err\n", "    return str(val)\n", "C02-ESCAPE"),
+        v("new-ceil-in-string-filter", "liquid/builtin/filters/string.py", "def strip(val: str) -> str:\n    \"\"\"Return a copy of _val_ with leading and trailing whitespace removed.\"\"\"\n", "def strip(val: str) -> str:\n    \"\"\"Return a copy of _val_ with leading and trailing whitespace removed.\"\"\"\n    if val and math.ceil(float(len(val)) / 0.0) == 0:\n        return \"\"\n", "C02-ESCAPE"),
         v("liquid-filter-no-conversion", FL, "    def wrapper(val: object, *args: Any, **kwargs: Any) -> Any:\n        try:\n            return _filter(val, *args, **kwargs)\n        except TypeError as err:\n            raise FilterArgumentError(err, token=None) from err\n\n    return wrapper\n\n\ndef int_arg", "    def wrapper(val: object, *args: Any, **kwargs: Any) -> Any:\n        return _filter(val, *args, **kwargs)\n\n    return wrapper\n\n\ndef int_arg", "C02-FUNNEL"),
         v("from-string-narrow-catch", "liquid/environment.py", "        except Exception as err:  # noqa: BLE001\n            raise LiquidError(\"unexpected liquid parsing error\", token=None) from err", "        except ValueError as err:\n            raise LiquidError(\"unexpected liquid parsing error\", token=None) from err", "C02-PARSE"),
         v("translate-vars-regex-lookbehind", "liquid/extra/tags/translate_tag.py", 're_vars = re.compile(r"(?<!%)(?:%%)*%\\((\\w+)\\)s")', 're_vars = re.compile(r"(?<!%)%\\((\\w+)\\)s")', "C02-ESCAPE"),
-        v("locale-valueerror", "liquid/extra/filters/babel.py", "        except (UnknownLocaleError, ValueError):", "        except UnknownLocaleError:", "C02-ESCAPE"),
         v("babel-format-unguarded", "liquid/extra/filters/babel.py", "        except (ArithmeticError, ValueError, OSError) as err:\n            # Timestamps out of range for the platform, NaN.\n", "        except KeyError as err:\n            # Timestamps out of range for the platform, NaN.\n", "C02-ESCAPE"),
     ]
